@@ -12,6 +12,7 @@
 #include <sign_condition.h>
 #include <polynomial_vector.h>
 #include <interval.h>
+#include "polynomial/polynomial.h"   /* the external mark of the output (struct field) */
 
 static lp_polynomial_t* P_new(void) { return lp_polynomial_new(hp_ctx[0]); }
 static lp_polynomial_t* P_const(long c) {
@@ -109,7 +110,9 @@ static void fm_case(void) {
   }
   lp_polynomial_t* p1 = fm_poly(); lp_polynomial_t* p2 = fm_poly();
   int c1 = rnd(6), c2 = rnd(6);
-  lp_polynomial_t* R = lp_polynomial_new(hp_ctx[0]);
+  /* the output: fresh, or pre-used (unrelated polynomial), and marked external half of the time */
+  lp_polynomial_t* R = chance(50) ? lp_polynomial_new(hp_ctx[0]) : hp_random_poly(0, NVARS, 2, 3);
+  int R_ext = chance(50); if (R_ext) lp_polynomial_set_external(R);
   lp_sign_condition_t Rs = LP_SGN_EQ_0;
   lp_polynomial_vector_t* as = lp_polynomial_vector_new(hp_ctx[0]);
   sb_begin("inf", "fm"); sb_sp(); sb_poly(p1); sb_sp(); sb_long(c1); sb_sp(); sb_poly(p2); sb_sp(); sb_long(c2); sb_sp();
@@ -122,6 +125,8 @@ static void fm_case(void) {
     for (size_t i = 0; i < lp_polynomial_vector_size(as); ++i) { lp_polynomial_t* a = lp_polynomial_vector_at(as, i); sb_sp(); sb_poly(a); lp_polynomial_delete(a); }
   }
   sb_emit();
+  /* an external output stays external (it keeps following order changes) and holds the context of the inputs */
+  sb_begin("inf", "fmout"); sb_sp(); sb_long(R_ext); sb_arrow(); sb_sp(); sb_long(R->external ? 1 : 0); sb_sp(); sb_long(lp_polynomial_get_context(R) == hp_ctx[0]); sb_emit();
   lp_polynomial_vector_delete(as);
   lp_polynomial_delete(R); lp_polynomial_delete(p1); lp_polynomial_delete(p2);
   lp_assignment_delete(M);
